@@ -80,9 +80,6 @@ def vrun (fixed : Bool) (cs : List Chg) : RunRes := vrunFrom fixed [] 0 cs
 def cleanRelB (p : Path) : Bool :=
   p = clean p && !isAbs p && p ≠ [dot] && p ≠ dd && !hasPrefixB dotdotSlash p
 
-/-- the parent of `p` as the validator sees it ("" = root) -/
-def parentOf (p : Path) : Path := let d := dirB p; if d = [dot] then [] else d
-
 /-- element `x` is acceptable after the accepted prefix `pre` (oldest first) -/
 def specOk (pre : List Chg) (x : Chg) : Bool :=
   cleanRelB x.path &&
